@@ -3,6 +3,7 @@
 (a) real Dispatcher + modules with real loggers under a RemoteLogHandler, fake connections; table model
 (b) real LogfileHandler in generated log directories, virtual date (mlzlog.time is re-bound)
 """
+import re
 import os
 import time
 import shutil
@@ -27,7 +28,7 @@ ASSUMPTIONS = ['records are emitted through the module loggers (logging.Logger.l
 
 N_EXAMPLES = {'quick': 800, 'thorough': 15000}
 NAMES = {'debug': 10, 'comlog': 15, 'info': 20, 'warning': 30, 'error': 40, 'off': 99}
-EMIT_LEVELS = [10, 15, 20, 30, 40, 50, 25]
+EMIT_LEVELS = [10, 15, 20, 30, 40, 50, 25, 45]
 
 
 def shards(tier, seed):
@@ -61,7 +62,7 @@ def route_case(draw):
             ops.append({'op': 'logging', 'conn': c, 'mod': mod, 'level': draw(st.sampled_from(levels))})
         elif kind == 'emit':
             ops.append({'op': 'emit', 'mod': 'hid' if hidden and draw(st.integers(0, 3)) == 0 else f'm{draw(st.integers(0, nmods - 1))}',
-                        'levelno': draw(st.sampled_from(EMIT_LEVELS))})
+                        'levelno': draw(st.sampled_from(EMIT_LEVELS)), 'malformed': draw(st.integers(0, 7)) == 0})
         else:
             ops.append({'op': kind, 'conn': c})
     return {'kind': 'route', 'nmods': nmods, 'nconn': nconn, 'hidden': hidden, 'ops': ops}
@@ -130,10 +131,26 @@ def _check_route(ctx, case, Module):
             mobj = kit.modules[op['mod']]
             text = f'message {n}'
             try:
-                mobj.log.log(op['levelno'], 'message %d', n)
+                if op.get('malformed'):
+                    # a log call whose arguments do not fit its format: logging swallows this (nobody subscribed: nothing
+                    # happens) - it must not become an exception in the driver just because somebody listens
+                    import logging as _logging
+                    _logging.raiseExceptions = False
+                    text = None
+                    mobj.log.log(op['levelno'], 'message %d', 'x')
+                else:
+                    mobj.log.log(op['levelno'], 'message %d', n)
             except Exception as e:   # noqa - raised into the driver's logging call
-                ctx.finding(f'emit:raises:{type(e).__name__}:level-{op["levelno"]}', sub, repr(e))
+                ctx.finding(f'emit:raises:{type(e).__name__}:' + ('malformed-call' if op.get('malformed') else f'level-{op["levelno"]}'), sub, repr(e))
                 return
+            if text is None:
+                for ci, conn in enumerate(conns):
+                    other = [m for m in conn.log[before[ci]:] if m[0] != 'log']
+                    if other:
+                        ctx.finding('emit:stray-message', sub, repr(other))
+                        return
+                ctx.ok('malformed-log-call-harmless')
+                continue
             for ci, conn in enumerate(conns):
                 new = conn.log[before[ci]:]
                 want = alive[ci] and table.get((op['mod'], ci)) is not None and op['levelno'] >= table[(op['mod'], ci)]
@@ -149,6 +166,9 @@ def _check_route(ctx, case, Module):
                                 f'conn {ci} (alive {alive[ci]}) level {table.get((op["mod"], ci))}, record {op["levelno"]}: {mine!r}')
                 elif want and not mine[0][1].startswith(op['mod'] + ':'):
                     ctx.finding('emit:wrong-specifier', sub, repr(mine))
+                elif want and not re.fullmatch(r'[A-Za-z0-9_]+', mine[0][1][len(op['mod']) + 1:]):
+                    # the specifier is one word on the wire: 'm0:level 45' would be split at the blank by every decoder
+                    ctx.finding('emit:specifier-not-one-word', sub, repr(mine))
                 else:
                     ctx.ok('routing')
             levelsets.add(frozenset(v for (m, c), v in table.items()))
